@@ -82,6 +82,8 @@ func runC15(c *ctx) {
 	c.c15CorruptAll(mats)
 	c.c15Witnesses(mats)
 	c.c15Crafted(mats)
+	// restore outcomes that depend on map iteration order: every damaged config restored many times (c15_repeat.go)
+	c.c15RestoreRepeat()
 }
 
 // ---------------------------------------------------------------------------------------------
